@@ -768,6 +768,8 @@ def check_c01(idx: Index, tier: str, res: Result) -> None:
     _shape_converter(idx, res)
     _r2(idx, res, renderers)
     _sweep(idx, res)
+    from .timegrid import check_normalisation
+    check_normalisation(idx, res)       # a wrong precision/offset evaluates equations at the wrong grid time
     _builtins(idx, res, renderers)
     vocab = set(C02_VOCAB)
     inners = inner_texts(renderers, vocab)
